@@ -4,7 +4,7 @@ import random
 
 import vlib
 
-MODEL_VO = ['Pdb/Records.vo']
+MODEL_VO = ['Pdb/Records.vo', 'Pdb/AtomSite.vo']
 
 PDB_SRCS = ['polyheur.cpp', 'resinfo.cpp', 'sprintf.cpp', 'symmetry.cpp', 'gz.cpp']
 
@@ -198,3 +198,13 @@ def repo_pdb_files():
     d = os.path.join(vlib.REPO, 'tests')
     return sorted(os.path.join(d, f) for f in os.listdir(d)
                   if f.endswith(('.pdb', '.pdb.gz', '.ent', '.ent.gz')) and 'sf' not in f)
+
+
+# ---------------------------------------------------------------- C07
+
+CIF_SRCS = ['mmcif.cpp', 'to_mmcif.cpp', 'pdb.cpp', 'to_pdb.cpp', 'read_cif.cpp', 'polyheur.cpp', 'resinfo.cpp',
+            'sprintf.cpp', 'symmetry.cpp', 'gz.cpp', 'json.cpp']
+
+
+def harness_cif():
+    return vlib.build_exe('h_pdbcif', [vlib.ROOT + '/harness/h_pdbcif.cpp'] + vlib.repo_src(*CIF_SRCS))
